@@ -624,6 +624,7 @@ def _pow_loop_step(rep, tag, fn, rp):
         found["elts"], found["ints"], found["self"] = elts, ints, cut["params"][0]
         found["init"] = st
         found["n"] = n
+        found.setdefault("inits", []).append((pth, st, n))
     core.explore(run, on_path=on_init)
     if "elts" not in found or len(found["elts"]) != 2 or len(found["ints"]) != 1:
         rep.unknown("%s: loop state is not (accumulator, running power, exponent): %s" % (tag, found.get("elts")))
@@ -682,11 +683,17 @@ def _pow_loop_step(rep, tag, fn, rp):
             ok[0] = False
         if ok[0]:
             # initial state satisfies the invariant with these roles
-            st = found["init"]
-            n = found["n"]
-            with core.Ctx() as c2:
-                c2.assume(n.t >= 0)
-                v, m = c2.prove(z3.And(st[acc].c.t + st[pw].c.t * SymZ.lift(st[evar]).t == n.t, SymZ.lift(st[evar]).t >= 0))
+            v = "unsat"
+            for (ipth, st, n) in found["inits"]:
+                # every path through the prologue must establish the invariant (e.g. an exponent reduction would not)
+                vi, mi = ipth.ctx.prove(z3.And(st[acc].c.t + st[pw].c.t * SymZ.lift(st[evar]).t == n.t, SymZ.lift(st[evar]).t >= 0))
+                if vi != "unsat":
+                    v = vi
+                    if vi == "sat":
+                        try:
+                            suspects.append(mi.eval(n.t, model_completion=True).as_long())
+                        except Exception:
+                            pass
             if v == "unsat":
                 rep.ok("%s: loop invariant acc*pw^e = x^n established, preserved by an arbitrary iteration, e decreases, exit gives x^n (all n >= 0)" % tag)
                 return
@@ -1621,3 +1628,33 @@ for _impl in ("ref", "opt"):
                        bound="one arbitrary iteration of FQP.inv's Euclid loop on DENSE symbolic polynomials at the real prime, for degree patterns (deg low, deg high): "
                              "all 4 (FQ2); 26 patterns (quick) / all 144 (thorough) for FQ12; unbounded number of iterations by induction")(
                 _mk_inv_loop(_impl, _curve, _deg))
+
+
+
+@obligation("C08", "fq12_subclass_symbolic_modulus", bound="FQ12 (reference and optimized) SUBCLASSED with a modulus polynomial whose coefficients are symbolic on the index sets {0,6,11}, {1,5,10}, {2,3,4}, {7,8,9} (others 0), bn128 prime: product vs schoolbook model, one neutral")
+def fq12_symbolic_modulus(rep, tier):
+    f = mod(FIELDS)
+    p = f.bn128_FQ.field_modulus
+    refM, optM = mod("py_ecc.fields.field_elements"), mod("py_ecc.fields.optimized_field_elements")
+    rep.encoded(refM.FQ12.__init__, optM.FQ12.__init__, refM.FQP.__mul__, optM.FQP.__mul__)
+    rp = {"kind": "c08_fqp_adhoc", "args": {"deg": 12}}
+    for idxs in ((0, 6, 11), (1, 5, 10), (2, 3, 4), (7, 8, 9)):
+        for impl, M in (("ref", refM), ("opt", optM)):
+            def fn(R, M=M, idxs=idxs):
+                mc = tuple(R.atom("m%d" % i) if i in idxs else 0 for i in range(12))
+
+                class T(M.FQ12):
+                    field_modulus = p
+                    FQ12_MODULUS_COEFFS = mc
+                a, b = _atoms(R, "a", 12), _atoms(R, "b", 12)
+                x, y = T(a), T(b)
+                return mc, a, b, cf(x * y), cf(x * T.one())
+            for pth, R in ring.run_paths(fn, lambda: Ring(p, policy=lambda live: "generic")):
+                rep.paths += 1
+                path = lits_summary(R)
+                if pth.kind != "ret":
+                    rep.fail("%s FQ12 subclass with symbolic modulus coefficients %s raised %r" % (impl, idxs, pth.value), rp)
+                    continue
+                mc, a, b, prod, one = pth.value
+                _eq_coeffs(rep, R, prod, spec_mul(a, b, list(mc)), "%s FQ12 subclass, modulus coefficients %s symbolic: product = schoolbook product reduced by the modulus" % (impl, idxs), rp, path)
+                _eq_coeffs(rep, R, one, a, "%s FQ12 subclass, modulus coefficients %s symbolic: x * one = x" % (impl, idxs), rp, path)
